@@ -110,6 +110,13 @@ func gobEncodeItem(it Item) ([]byte, error) {
 			return err
 		})
 	}
+	if IsLink(it) {
+		err = OnLink(it, func(l *Link) error {
+			bytes, err := l.GobEncode()
+			b.Write(bytes)
+			return err
+		})
+	}
 	if IsObject(it) {
 		switch it.GetType() {
 		case IRIType:
